@@ -764,6 +764,32 @@ def generic_history(sim, loc):
                 simfactory=True, initial=2, ops=ops)
 
 
+def generic_history_many(sim, loc):
+    """two-digit numbers: 12 refinement levels (level labels 10, 11 next to
+    1) and 12 components with the finer level living on components 1..11
+    only (component labels 10, 11 next to 1); catalogue, parse-back and
+    incremental update."""
+    def lv(a, b):
+        return _lev(*[[a, b, max(1, 64 >> k)] for k in range(12)])
+    rs = [
+        dict(files=[F_ALP, F_SHIFT], nproc=0, ncomp=1, m0=False,
+             levels=lv(0, 64), checkpoints=[], chk_nproc=0, decoys=False),
+        dict(files=[F_ALP, F_SHIFT], nproc=0, ncomp=1, m0=False,
+             levels=lv(64, 128), checkpoints=[100], chk_nproc=0,
+             decoys=False),
+        dict(files=[F_ALP, F_RHO], nproc=0, ncomp=12, m0=False,
+             levels=_lev([128, 160, 8], [128, 160, 4]),
+             level_comps={"1": list(range(1, 12))},
+             checkpoints=[], chk_nproc=0, decoys=False),
+    ]
+    ops = [["iterations", False], ["read_iterations", False],
+           ["get_content", 0, False], ["add"], ["iterations", False],
+           ["read_iterations", False], ["add"], ["iterations", False],
+           ["get_content", 2, False], ["read_iterations", False]]
+    return dict(sim=sim, loc=loc, restarts=rs, ids=[0, 1, 2],
+                simfactory=False, initial=1, ops=ops)
+
+
 # ---------------------------------------------------------------------------
 # overall: collect_overall_iterations, set semantics
 
@@ -1473,7 +1499,8 @@ def subchecks(tier):
         Sub("history", history_case(), test_history, 240 if q else 6000,
             generic=[generic_history("rl_it_arange_Checkpoints_3D_output",
                                      ["output", "it3D_rl"]),
-                     generic_history("my_restart_sim", ["restart"])],
+                     generic_history("my_restart_sim", ["restart"]),
+                     generic_history_many("manylevels", ["box"])],
             shards=8 if q else 16, max_rounds=6, shrink_quick=False),
         Sub("overall", overall_case(), test_overall, 2000 if q else 60000,
             generic=[dict(levels=[_lev([0, 384, 128], [0, 384, 64]),
